@@ -6,11 +6,10 @@ use nodeio::*;
 use vh_common::*;
 
 use ironcalc_base::expressions::lexer::LexerMode;
-use ironcalc_base::expressions::parser::stringify::to_rc_format;
 use ironcalc_base::expressions::parser::{Node, Parser};
 use ironcalc_base::expressions::types::CellReferenceRC;
-use ironcalc_base::language::{get_language, Language};
-use ironcalc_base::locale::{get_locale, Locale};
+use ironcalc_base::language::get_language;
+use ironcalc_base::locale::get_locale;
 use ironcalc_base::{Function, Model, UserModel};
 use serde_json::json;
 use std::collections::{BTreeMap, BTreeSet, HashMap};
@@ -225,25 +224,11 @@ fn resolve(n: &Node, sheets: &[String], ctx: u32) -> Node {
 fn strip_defs(n: &Node) -> Node {
     map_node(n, &|x| match x { Node::DefinedNameKind((a, _, _)) => Some(Node::DefinedNameKind((a.clone(), None, String::new()))), _ => None })
 }
-fn has_ghost_range(n: &Node) -> bool { any_node(n, &|x| matches!(x, Node::WrongRangeKind { sheet_name: Some(_), .. })) }
 fn has_ghost_named(n: &Node, name: &str) -> bool {
     any_node(n, &|x| matches!(x, Node::WrongRangeKind { sheet_name: Some(s), .. } | Node::WrongReferenceKind { sheet_name: Some(s), .. } if s == name))
 }
 fn reads_sheet_text(n: &Node) -> bool {
     any_node(n, &|x| matches!(x, Node::FunctionKind { kind, .. } if matches!(kind, Function::Sheet | Function::Sheets | Function::Formulatext | Function::Cell)))
-}
-
-/// does the stored text survive "parse with the user's locale and language, print in the stored form"?
-fn stored_ok_in_user_locale(text: &str, sheets: &[String], ctx: &str, defs: &[(String, Option<u32>, String)], lc: &'static Locale, lg: &'static Language) -> bool {
-    let mut p = Parser::new(sheets.to_vec(), defs.to_vec(), HashMap::new(), lc, lg);
-    p.set_lexer_mode(LexerMode::R1C1);
-    let t = p.parse(text, &CellReferenceRC { sheet: ctx.to_string(), row: 1, column: 1 });
-    if matches!(t, Node::ParseErrorKind { .. }) { return false; }
-    let en = Parser::new(sheets.to_vec(), defs.to_vec(), HashMap::new(), get_locale("en").unwrap(), get_language("en").unwrap());
-    let mut en = en; en.set_lexer_mode(LexerMode::R1C1);
-    let t2 = en.parse(text, &CellReferenceRC { sheet: ctx.to_string(), row: 1, column: 1 });
-    let t3 = en.parse(&to_rc_format(&t), &CellReferenceRC { sheet: ctx.to_string(), row: 1, column: 1 });
-    t2 == t3
 }
 
 /// cells a formula reads (clipped to the generated block), through defined names
@@ -299,8 +284,6 @@ impl<'a> Run<'a> {
     #[allow(clippy::too_many_arguments)]
     fn oracle(&mut self, op: &str, bk: &Book, before: &Snap, after: &Snap, place: &dyn Fn(u32) -> u32, pass: &dyn Fn(&Node, u32) -> Node,
               captured: &str, input: &serde_json::Value, only_sheet: Option<(u32, u32)>) {
-        let lc = get_locale(bk.locale).unwrap();
-        let lg = get_language(bk.lang).unwrap();
         let defs = parse_defs(before);
         // roots of legitimate / known value changes, by class
         let mut taint: BTreeMap<(u32, i32, i32), String> = BTreeMap::new();
@@ -320,10 +303,9 @@ impl<'a> Run<'a> {
                 if !captured.is_empty() && has_ghost_named(node, captured) { taint.insert((*s, *r, *c), "skip".into()); }
                 if !same {
                     let stored = cell.stored.clone().unwrap_or_default();
-                    let class = if (bk.lang != "en" || bk.locale != "en") && !stored_ok_in_user_locale(&stored, &before.names, &before.names[*s as usize], &before.defs, lc, lg) {
-                        "stored_formula_parsed_in_user_locale"
-                    } else if op == "rename_undo" && !captured.is_empty() && has_ghost_named(node, captured) { "dangling_reference_captured_by_new_name" }
-                    else if has_ghost_range(node) && op != "move" { "ghost_range_renamed" }
+                    // F12 (ghost ranges renamed) and F65 (stored formulas parsed in the user's locale) are repaired
+                    // (059fa54, 9f60d5e): a recurrence is an ordinary violation
+                    let class = if op == "rename_undo" && !captured.is_empty() && has_ghost_named(node, captured) { "dangling_reference_captured_by_new_name" }
                     else { "tree_changed_beyond_target" };
                     taint.insert((*s, *r, *c), class.to_string());
                     let d = format!("{op}: sheet {s} cell ({r},{c}) stored {:?}: expected [{}] got [{}]", stored, dump_s(&expected, self.fns),
@@ -374,14 +356,15 @@ impl<'a> Run<'a> {
         en.set_lexer_mode(LexerMode::R1C1);
         for (s, s_after) in src_sheets {
             for (k, text) in before.shared[*s as usize].iter().enumerate() {
-                // tokens as the parser of rename_sheet_by_index / duplicate_sheet sees them
-                let toks = tokens(text, true, lc, lg);
+                // tokens as the parser of rename_sheet_by_index / duplicate_sheet sees them: English since 9f60d5e
+                let _ = (lc, lg);
+                let toks = tokens(text, true, en_lc, en_lg);
                 if toks.iter().any(|t| t == "X") { continue; }
                 // booleans are spelled differently per language and lex differently; not generated
                 let Some(text_after) = after.shared[*s_after as usize].get(k) else { continue };
                 let toks_after = tokens(text_after, true, en_lc, en_lg);
-                // a formula the user-locale parser rejects keeps its text
-                let mut up = Parser::new(before.names.clone(), before.defs.clone(), HashMap::new(), lc, lg);
+                // a formula the (English) parser rejects keeps its text
+                let mut up = Parser::new(before.names.clone(), before.defs.clone(), HashMap::new(), en_lc, en_lg);
                 up.set_lexer_mode(LexerMode::R1C1);
                 let failed = matches!(up.parse(text, &CellReferenceRC { sheet: before.names[*s as usize].clone(), row: 1, column: 1 }), Node::ParseErrorKind { .. });
                 if failed && text_after != text {
